@@ -47,11 +47,10 @@ fn dataset(count: u8, sum: Decimal) -> DataSetSummary {
 }
 
 fn any_state(n_max: u8, bits: u32) -> (PnLReturns, Ghost) {
-    let (w, l): (u8, u8) = (kani::any(), kani::any());
-    kani::assume(w <= n_max && l <= n_max);
+    let (w, l): (u8, u8) = (any_u8_lt(n_max + 1), any_u8_lt(n_max + 1));
     let sw = if w == 0 { Decimal::ZERO } else { dec_q(bits, 2) };
     let sl = if l == 0 { Decimal::ZERO } else { -dec_q(bits, 2) };
-    kani::assume(l == 0 || sl < Decimal::ZERO);
+    assume(l == 0 || sl < Decimal::ZERO);
     let p = dec_i(bits);
     let returns = PnLReturns { pnl_raw: p, total: dataset(w + l, sw + sl), losses: dataset(l, sl) };
     (returns, Ghost { w, l, sw, sl, p })
@@ -68,7 +67,7 @@ fn check_invariant(r: &PnLReturns, g: &Ghost) {
 fn closed(pnl: Decimal, price: Decimal, quantity: Decimal, t: u8) -> PositionExited<QuoteAsset, InstrumentIndex> {
     PositionExited {
         instrument: InstrumentIndex(0),
-        side: if kani::any() { Side::Buy } else { Side::Sell },
+        side: if any_bool() { Side::Buy } else { Side::Sell },
         price_entry_average: price,
         quantity_abs_max: quantity,
         pnl_realised: pnl,
